@@ -1,0 +1,10 @@
+//go:build !verif
+// +build !verif
+
+package massdb_v1
+
+import "github.com/massnetorg/mass-core/poc/pocutil"
+
+func verifCacheCap(requiredMem uint64) uint64 { return requiredMem }
+
+func verifPoint(mdb *MassDBV1, name string, a, b pocutil.PoCValue) {}
